@@ -615,9 +615,15 @@ class ParsedObject:
         if self._hash is not None:
             return self._hash
         self._hash = 0
-        result = 0
-        for field in self._fields:
-            result ^= _hash(getattr(self, field))
+        try:
+            result = 0
+            for field in self._fields:
+                result ^= _hash(getattr(self, field))
+        except BaseException:
+            # Don't remember the placeholder of an attempt that did not finish
+            # (a RecursionError on a deep tree, for example).
+            self._hash = None
+            raise
         self._hash = result
         return result
 
